@@ -5,7 +5,7 @@
    preimage of another committed digest string): [occurs]. *)
 From Coq Require Import List String ZArith NArith Bool.
 Import ListNotations.
-From VF Require Import C18.Model C18.Proofs C18.Exact C18.Hiding C18.Corr.
+From VF Require Import C18.Model C18.Proofs C18.Exact C18.Accept C18.Hiding C18.Corr.
 Open Scope string_scope.
 Open Scope list_scope.
 
@@ -159,11 +159,25 @@ Print Assumptions disclose_exact_refuted.
    disclosure sites, not decoy salts (finding v5-decoy-digests-emitted-as-disclosures concerns holder.Parse
    only); top-level names differ from the registered iss / cnf; the hash is one of the three supported.
    For EVERY such claim tree, option set (v2 and v5: flat, structured, always-include, recursive, non-SD paths,
-   array elements, decoys, cnf) and selection: the issuer succeeds in writing an SD-JWT whose _sd_alg the verifier
-   reads back, the output pass over the chosen disclosures succeeds, and whenever verifier.Parse accepts the
-   presentation its output is the always-visible claims plus the chosen ones with their issued values
-   (equal up to the order of object members: [veq]). *)
-Theorem disclose_exact_partial : forall o claims sel payload ds vo hb out,
+   array elements, decoys, cnf), parent-closed selection and holder-binding configuration that passes:
+   verifier.Parse ACCEPTS the presentation (signature, no duplicate, every digest met once, every chosen disclosure
+   reached, both passes of discloseClaimValue succeed) and outputs the always-visible claims plus the chosen ones
+   with their issued values (equal up to the order of object members: [veq]). *)
+Theorem disclose_exact_partial : forall o claims sel payload ds vo hb,
+  alg_ok (o_alg o) -> clean (VObj claims) = true ->
+  ~ In "iss" (map fst claims) -> ~ In "cnf" (map fst claims) ->
+  forallb site_path sel = true ->
+  closedb sel ds = true ->                                   (* the subset is parent-closed *)
+  (o_v5 o = true -> akept5 o sel false [] (VObj claims) = true) ->
+  issue o claims = Ok (payload, ds) ->
+  holder_verification vo payload hb = Ok tt ->               (* whatever binding configuration passes *)
+  exists out, verify vo {| p_sig_ok := true; p_payload := payload; p_discs := choose sel ds; p_hb := hb |} = Ok out /\
+              veq out (reveal o sel claims).
+Proof. exact honest_flow. Qed.
+Print Assumptions disclose_exact_partial.
+
+(* without parent-closedness: whenever the verifier accepts, the output is still visible + chosen *)
+Theorem disclose_exact_when_accepted_partial : forall o claims sel payload ds vo hb out,
   alg_ok (o_alg o) -> clean (VObj claims) = true ->
   ~ In "iss" (map fst claims) -> ~ In "cnf" (map fst claims) ->
   forallb site_path sel = true ->
@@ -177,7 +191,26 @@ Proof.
   apply verify_ok_inv in Hv as (_ & _ & _ & _ & a' & Ha' & Hr). cbn [p_payload p_discs] in *.
   rewrite Hal in Ha'. inversion Ha'; subst a'. rewrite Hy in Hr. inversion Hr; subst. exact Hveq.
 Qed.
-Print Assumptions disclose_exact_partial.
+Print Assumptions disclose_exact_when_accepted_partial.
+
+(* VerifyDisclosuresInSDJWT passes on every honest presentation: every digest is met once, every chosen
+   disclosure is reached, the first (non-cleaning) pass succeeds *)
+Theorem honest_presentation_passes_partial : forall o claims sel payload ds,
+  alg_ok (o_alg o) -> clean (VObj claims) = true ->
+  ~ In "iss" (map fst claims) -> ~ In "cnf" (map fst claims) ->
+  forallb site_path sel = true -> closedb sel ds = true ->
+  (o_v5 o = true -> akept5 o sel false [] (VObj claims) = true) ->
+  issue o claims = Ok (payload, ds) ->
+  verify_disclosures payload (choose sel ds) = Ok tt.
+Proof. exact accepts. Qed.
+Print Assumptions honest_presentation_passes_partial.
+
+(* fresh salts: the disclosures of an issued SD-JWT have pairwise different salts (one per site), so choosing
+   by site is choosing disclosure texts, and an unselected disclosure shares its salt with no presented one *)
+Theorem issued_salts_fresh : forall o claims payload ds,
+  clean (VObj claims) = true -> issue o claims = Ok (payload, ds) -> NoDup (map d_salt ds).
+Proof. exact issued_nodup. Qed.
+Print Assumptions issued_salts_fresh.
 
 (* the output pass itself never fails on an issued SD-JWT and a selection of its sites *)
 Theorem disclose_output_pass_partial : forall o claims sel payload ds,
@@ -276,7 +309,8 @@ Proof. vm_compute. split; reflexivity. Qed.
 Example disclose_exact_guard_met :
   let sel := [[SKey "addr"]; [SKey "addr"; SKey "city"]; [SKey "langs"; SIdx 1]] in
   alg_ok (o_alg o5) /\ clean (VObj claims5) = true /\ forallb site_path sel = true /\
-  akept5 o5 sel false [] (VObj claims5) = true /\ is_ok (issue o5 claims5) = true.
+  akept5 o5 sel false [] (VObj claims5) = true /\
+  match issue o5 claims5 with Ok (_, ds) => closedb sel ds = true | _ => False end.
 Proof. cbn zeta. split; [right; left; reflexivity|]. vm_compute. repeat split. Qed.
 
 (* the same SD-JWT: a child without its parent, a foreign, a duplicated, an altered disclosure, a wrong nonce *)
